@@ -201,6 +201,28 @@ def run_case(ctx, i, rng, log):
 
       # ---------------- apply under the mutability contract
       variables = to_repr(v0, how)
+      # empty placeholder collections / emptied sub-trees supplied by the caller (plain dicts): a mutable collection the module
+      # writes into must still be copied, never used as the scope's live storage
+      placeholders = []
+      if special is None and rng.random() < 0.35 and isinstance(variables, dict):
+        for col in ('intermediates', 'probes', 'perturbations', 'state', 'cache', 'stats', 'batch_stats'):
+          if not ref_pred(col):
+            continue
+          if col not in variables and rng.random() < 0.7:
+            variables[col] = {}
+            placeholders.append(col)
+          elif col in variables and col != 'perturbations' and rng.random() < 0.5:
+            sub = variables[col]
+            if isinstance(sub, dict) and sub:
+              k0 = sorted(sub)[0]
+              # empty the whole collection, or one module's nested sub-tree
+              if isinstance(sub[k0], dict) and rng.random() < 0.5:
+                sub[k0] = {}
+                placeholders.append(col + '/' + k0)
+              else:
+                variables[col] = {}
+                placeholders.append(col)
+      desc['placeholders'] = placeholders
       in_ids = dict_ids(variables)
       h_apply = [m, variables, rngs, x]
       before = snap.snap(h_apply)
@@ -260,7 +282,7 @@ def run_case(ctx, i, rng, log):
         ctx.check(d is None, 'aliasing:poisoned_output_changed_input', lambda: dict(case=desc, diff=repr(d)[:500]))
         ctx.event('poisoned_dicts', n_p)
         # state semantics: counters advance by exactly the number of executions, input untouched
-        if mutable is not False and method is None and special is None:
+        if mutable is not False and method is None and special is None and not placeholders:
           y1, u1 = m.apply(variables, x, rngs=rngs, mutable=mutable)
           for col in u1:
             for p, leaf in LP.flat_vars({col: u1[col]})[col].items():
